@@ -97,6 +97,7 @@ var keyedCols = map[string]bool{
 var singleCols = map[string]bool{
 	"REQUEST_METHOD": true, "REQUEST_URI": true, "REQUEST_FILENAME": true, "REQUEST_PROTOCOL": true, "RESPONSE_STATUS": true,
 	"MATCHED_VAR": true, "MATCHED_VAR_NAME": true, "QUERY_STRING": true, "HIGHEST_SEVERITY": true, "REQUEST_LINE": true,
+	"REQUEST_URI_RAW": true, "REQUEST_BASENAME": true,
 }
 
 func names(kvs []KV) []KV {
@@ -852,7 +853,14 @@ func newModel(p *Program, req *Req) *model {
 	if m.engine == "" {
 		m.engine = "On"
 	}
-	m.cols["ARGS_GET"] = req.Get
+	var qargs []KV
+	if req.RawQuery != "" {
+		for _, pair := range strings.Split(req.RawQuery, "&") {
+			k, v, _ := strings.Cut(pair, "=")
+			qargs = append(qargs, KV{k, v})
+		}
+	}
+	m.cols["ARGS_GET"] = append(qargs, req.Get...)
 	m.cols["ARGS_POST"] = req.Post
 	var hdrs, cookies []KV
 	for _, h := range req.Headers {
@@ -875,11 +883,21 @@ func newModel(p *Program, req *Req) *model {
 	m.cols["REQUEST_HEADERS"] = hdrs
 	m.cols["REQUEST_COOKIES"] = cookies
 	m.singles["REQUEST_METHOD"] = req.Method
-	m.singles["REQUEST_URI"] = req.Path
+	uri := req.Path
+	if req.RawQuery != "" {
+		uri += "?" + req.RawQuery
+	}
+	m.singles["REQUEST_URI"] = uri
+	m.singles["REQUEST_URI_RAW"] = uri
 	m.singles["REQUEST_FILENAME"] = req.Path
+	base := req.Path
+	if i := strings.LastIndexAny(req.Path, "/\\"); i >= 0 && len(req.Path) > i+1 {
+		base = req.Path[i+1:]
+	}
+	m.singles["REQUEST_BASENAME"] = base
 	m.singles["REQUEST_PROTOCOL"] = "HTTP/1.1"
-	m.singles["REQUEST_LINE"] = req.Method + " " + req.Path + " HTTP/1.1"
-	m.singles["QUERY_STRING"] = ""
+	m.singles["REQUEST_LINE"] = req.Method + " " + uri + " HTTP/1.1"
+	m.singles["QUERY_STRING"] = req.RawQuery
 	return m
 }
 
